@@ -113,6 +113,96 @@ fn random_subset(rng: &mut Rng64, n: usize, k: usize) -> Vec<usize> {
     all
 }
 
+/// ALL diagrams accepted by `from_nodes` with exactly `k` decision nodes over `n` variables whose links
+/// point to smaller indices: every node chooses a variable and two links among the earlier rows, subject
+/// only to the ordering along links. This includes every non-reduced shape: redundant tests into terminals
+/// `(v,1,1)`, `(v,0,0)`, into inner nodes `(v,p,p)`, duplicated nodes, unreachable nodes.
+fn all_valid_diagrams(n: usize, k: usize) -> Vec<Vec<(usize, usize, usize)>> {
+    fn go(n: usize, k: usize, cur: &mut Vec<(usize, usize, usize)>, acc: &mut Vec<Vec<(usize, usize, usize)>>) {
+        if cur.len() == k + 2 { acc.push(cur.clone()); return; }
+        let i = cur.len();
+        for v in 0..n { for l in 0..i { for h in 0..i {
+            if cur[l].0 > v && cur[h].0 > v { cur.push((v, l, h)); go(n, k, cur, acc); cur.pop(); }
+        } } }
+    }
+    let mut acc = vec![];
+    go(n, k, &mut vec![(n, 0, 0), (n, 1, 1)], &mut acc);
+    acc
+}
+/// one random diagram of that family (same constraints), `k` decision nodes
+fn random_valid_diagram(rng: &mut Rng64, n: usize, k: usize) -> Vec<(usize, usize, usize)> {
+    let mut cur = vec![(n, 0, 0), (n, 1, 1)];
+    while cur.len() < k + 2 {
+        let i = cur.len();
+        let (l, h) = if rng.chance(1, 3) { let p = rng.below(i as u64) as usize; (p, p) } else { (rng.below(i as u64) as usize, rng.below(i as u64) as usize) };
+        let top = cur[l].0.min(cur[h].0);
+        if top == 0 { continue; }
+        // bias towards the largest admissible variable, so that long chains can still be built above it
+        let v = if rng.bool() { top - 1 } else { rng.below(top as u64) as usize };
+        cur.push((v, l, h));
+    }
+    cur
+}
+fn accepted_by_from_nodes(nodes: &[(usize, usize, usize)]) -> bool {
+    let data: Vec<BddNode> = nodes.iter().map(|(v, l, h)| BddNode::mk_node(var(*v), BddPointer::from_index(*l), BddPointer::from_index(*h))).collect();
+    Bdd::from_nodes(&data).is_ok()
+}
+fn is_reduced_triples(nodes: &[(usize, usize, usize)]) -> bool {
+    for i in 2..nodes.len() {
+        if nodes[i].1 == nodes[i].2 { return false; }
+        for j in 2..i { if nodes[j] == nodes[i] { return false; } }
+    }
+    true
+}
+
+/// Stream of VALID but NOT REDUCED operands (the support must still contain the variable of every decision row).
+fn nonreduced(thorough: bool, rng: &mut Rng64, out: &mut Out, targets: &[Vec<String>]) {
+    let pool = ["a", "b", "c", "d"];
+    let mut ops = |d: &Vec<(usize, usize, usize)>, n: usize, full: bool, rng: &mut Rng64, out: &mut Out| {
+        assert!(accepted_by_from_nodes(d), "generator produced a diagram that from_nodes rejects: {:?}", d);
+        let f = fmt_triples(d);
+        let src: Vec<String> = pool[..n].iter().map(|x| x.to_string()).collect();
+        // rename_variable: all (old, new) pairs incl. the out-of-range id n
+        for old in 0..=n { for new in 0..=n {
+            if full || rng.chance(1, 2) { run("C17.renvar", &[f.clone(), old.to_string(), new.to_string()], out); }
+        } }
+        for nv in 0..=(n + 2) { if full || rng.chance(1, 2) { run("C17.setnv", &[f.clone(), nv.to_string()], out); } }
+        // rename_variables: all maps over <= 3 variables in thorough, sampled otherwise
+        let maps = all_maps(n);
+        let want = if thorough { if n <= 3 { maps.len() } else { 400 } } else if full { 10 } else { 5 };
+        if want >= maps.len() { for m in &maps { run("C17.renvars", &[f.clone(), fmt_map(m)], out); } }
+        else { for _ in 0..want { run("C17.renvars", &[f.clone(), fmt_map(&rng.pick::<Vec<(usize, usize)>>(&maps)[..])], out); } }
+        // transfer_from: all target name lists in thorough, sampled otherwise
+        if thorough { for t in targets { run("C17.transfer", &[f.clone(), fmt_names(&src), fmt_names(t)], out); } }
+        else { for _ in 0..(if full { 10 } else { 5 }) { run("C17.transfer", &[f.clone(), fmt_names(&src), fmt_names(&rng.pick::<Vec<String>>(targets)[..])], out); } }
+    };
+    // exhaustive: every valid diagram with <= 4 rows (<= 2 decision nodes) over 1..4 variables that is not reduced
+    for n in (1..=4usize).rev() {
+        for k in 1..=2usize {
+            for d in all_valid_diagrams(n, k) {
+                if is_reduced_triples(&d) && !rng.chance(1, 8) { continue; } // reduced ones are a sampled control group
+                ops(&d, n, thorough || n == 4, rng, out);
+            }
+        }
+    }
+    // 5 rows: exhaustive in thorough (non-reduced ones), sampled in quick; 6-8 rows sampled
+    if thorough {
+        for n in 2..=4usize { for d in all_valid_diagrams(n, 3) {
+            if is_reduced_triples(&d) { continue; }
+            if n == 4 && !rng.chance(1, 4) { continue; }
+            ops(&d, n, false, rng, out);
+        } }
+    }
+    let samples = if thorough { 6000 } else { 160 };
+    for _ in 0..samples {
+        let n = 3 + rng.below(2) as usize;
+        let k = 3 + rng.below(if thorough { 4 } else { 2 }) as usize;
+        let d = random_valid_diagram(rng, n, k);
+        if is_reduced_triples(&d) && !rng.chance(1, 8) { continue; }
+        ops(&d, n, false, rng, out);
+    }
+}
+
 const INVALID: [&str; 8] = [
     "|2,0,0|2,1,1|5,0,1|",            // variable out of range
     "|2,0,0|2,1,1|1,0,1|0,2,1|1,3,0|", // not ordered along an edge
@@ -128,6 +218,8 @@ pub fn gen(tier: Tier, rng: &mut Rng64, out: &mut Out) {
     let thorough = tier == Tier::Thorough;
     let pool = ["a", "b", "c", "d"];
     let targets = all_name_lists(&pool);
+    // ---------------- valid but non-reduced operands (redundant tests, duplicated nodes) over <= 4 variables
+    nonreduced(thorough, rng, out, &targets);
     // ---------------- exhaustive small universes: all functions over n <= 3 variables
     for n in 0..=3usize {
         let count = 1u64 << (1u64 << n);
